@@ -123,7 +123,7 @@ def check_call(ctx, regs_by_sel, own):
   for p, v in exp.items():
     if has_ref(v):
       continue
-    if env.get(p, '<absent>') != v:
+    if not C.strict_eq(env.get(p, '<absent>'), v):
       fails.append(('wrong-argument', 'parameter %r of %s under scope %r: function saw %r, expected %r (%s); '
                     'args=%r kwargs=%r store=%r' % (p, ctx['sel'], ctx['scope'], env.get(p, '<absent>'), v,
                                                    why[p], args, ctx['kwargs'], ctx['config'])))
@@ -270,6 +270,7 @@ class CallEngine(Engine):
         nontrivial = nontrivial or self.nontrivial(ctx, regs_by_sel)
       tags.append('depth%d' % len(ctx['scope']))
       tags.append('err:' + ctx['error'].split(':')[0] if 'error' in ctx else 'ok')
+    fails = m.readback_fails() + fails
     return {'obs': obs, 'fails': fails[:3], 'nontrivial': nontrivial, 'tags': tags}
 
   def check(self, ctx, regs_by_sel, own, m):
